@@ -42,6 +42,21 @@ Theorem C11_sorted_values_perm :
 Proof. exact Mpath.Proofs.C11.sorted_values_perm. Qed.
 Print Assumptions C11_sorted_values_perm.
 
+Theorem C11_sorted_values_defined_iff :
+  forall kvs : list (gv * gv), (exists vs : list gv, sorted_values kvs = Some vs) <-> (exists ss : list str, str_keys kvs ss /\ NoDup ss).
+Proof. exact Mpath.Proofs.C11.sorted_values_defined_iff. Qed.
+Print Assumptions C11_sorted_values_defined_iff.
+
+Theorem C11_sorted_values_mixed_keys :
+  let kvs := [(VInt KInt false 10, VStr false (bs "ten")); (VStr false (bs "b"), VStr false (bs "bee")); (VBool false true, VStr false (bs "yes")); (VInt KInt false 9, VStr false (bs "nine")); (VNil, VStr false (bs "nil"))] in let sorted := [VStr false (bs "nil"); VStr false (bs "ten"); VStr false (bs "nine"); VStr false (bs "bee"); VStr false (bs "yes")] in sorted_values kvs = Some sorted /\ sorted_values (rev kvs) = Some sorted /\ map (fun kv : gv * gv => key_sort_text (fst kv)) kvs = [Some (bs "10"); Some (bs "b"); Some (bs "true"); Some (bs "9"); Some (bs "")] /\ (str_ltb (bs "") (bs "10") && str_ltb (bs "10") (bs "9") && str_ltb (bs "9") (bs "b") && str_ltb (bs "b") (bs "true"))%bool = true.
+Proof. exact Mpath.Proofs.C11.sorted_values_mixed_keys. Qed.
+Print Assumptions C11_sorted_values_mixed_keys.
+
+Theorem C11_sorted_values_declines_alike :
+  sorted_values [(VInt KInt false 1, VStr false (bs "x")); (VStr false (bs "1"), VStr false (bs "y"))] = None.
+Proof. exact Mpath.Proofs.C11.sorted_values_declines_alike. Qed.
+Print Assumptions C11_sorted_values_declines_alike.
+
 Theorem C11_remove_keys_spec :
   forall (keepb : str -> bool) (keep : str -> option bool) (kt : kty) (vt : ety) (n : bool) (kvs : list (gv * gv)), (forall s : str, keep s = Some (keepb s)) -> remove_keys keep (VMap kt vt n kvs) = Ok (VMap kt vt false (filter (fun kv : gv * gv => match key_string (fst kv) with | Some s => keepb s | None => true end) kvs)).
 Proof. exact Mpath.Proofs.C11.remove_keys_spec. Qed.
